@@ -51,6 +51,7 @@ var (
 	vxFAACLCalls   int
 	vxFAParseNS    string
 	vxFAEntityArgs string
+	vxFAACLExtra   []*policy.Policy
 )
 
 func vxFALookup(ts *TokenStore, ctx context.Context, id string) (*logical.TokenEntry, error) {
@@ -82,6 +83,7 @@ func vxFAACL(ps *policy.Store, ctx context.Context, entity *identity.Entity, nam
 	ns, _ := namespace.FromContext(ctx)
 	vxFAACLCalls++
 	vxFAACLNS, vxFAACLNames, vxFAACLInline = ns.ID, names, len(extra)
+	vxFAACLExtra = extra
 	return &policy.ACL{}, nil
 }
 func vxFAParse(ns *namespace.Namespace, rules string) (*policy.Policy, error) {
@@ -178,4 +180,37 @@ func VxFetchACLUsesTheTokensNamespace() {
 	} else {
 		vxAssert("no inline policy, none handed over", vxFAACLInline == 0)
 	}
+}
+
+// inline policies are per token: two tokens of DIFFERENT namespaces carrying inline policies (same text or not), used
+// one after the other on one Core in either order - the policy object handed to each ACL is the token's own text parsed
+// in the token's OWN namespace (a parsed policy is namespace-qualified: its paths are prefixed with the namespace it
+// was parsed in), never something carried over from the earlier request.
+func VxInlinePolicyIsPerToken() {
+	c := &Core{logger: vxFALog{}, tokenStore: &TokenStore{}, policyStore: &policy.Store{}}
+	vxFALookupErr, vxFAEntityErr, vxFAEnt, vxFAIdentPol = false, false, nil, map[string][]string{}
+	texts := []string{"inline-a", "inline-b"}
+	first := vxBool("the child-namespace token goes first")
+	sameText := vxBool("both tokens carry the same inline policy text")
+	for i := 0; i < 3; i++ {
+		tokNS := namespace.RootNamespace
+		if (i%2 == 0) == first {
+			tokNS = vxFAChild
+		}
+		text := texts[0]
+		if !sameText && tokNS == vxFAChild {
+			text = texts[1]
+		}
+		vxFAToken = &logical.TokenEntry{ID: "tok", NamespaceID: tokNS.ID, TTL: 3600e9, Policies: []string{"p"}, InlinePolicy: text}
+		vxFAACLExtra = nil
+		reqNS := tokNS
+		if vxBool("request in child namespace n1") {
+			reqNS = vxFAChild
+		}
+		_, te, _, _, err := c.fetchACLTokenEntryAndEntity(namespace.ContextWithNamespace(context.Background(), reqNS), &logical.Request{Operation: logical.ReadOperation, Path: "secret/foo", ClientToken: "tok"})
+		vxAssert("the token is accepted", err == nil && te == vxFAToken)
+		vxAssert("exactly one inline policy is handed to the ACL", len(vxFAACLExtra) == 1 && vxFAACLExtra[0] != nil)
+		vxAssert("the inline policy handed to the ACL is the token's own text parsed in the token's OWN namespace, whatever earlier requests carried", vxFAACLExtra[0].Namespace == tokNS && vxFAACLExtra[0].Raw == text)
+	}
+	vxReach("inline: three requests")
 }
